@@ -7,10 +7,10 @@ from . import common as C
 
 # which clauses of Trace_Container belong to which property
 CLAUSES = {
-    "C01": {"write", "decode", "decode_params", "layout", "layout_clustered", "open", "params", "lookup", "extra", "stream"},
+    "C01": {"write", "decode", "decode_params", "layout", "layout_clustered", "open", "params", "lookup", "extra", "stream", "walk_coverage"},
     "C02": {"stream"},
     "C03": {"coverage_contains", "coverage_exact"},
-    "C16": {"open", "params", "lookup", "extra", "stream", "coverage_contains", "coverage_exact"},
+    "C16": {"open", "params", "lookup", "extra", "stream", "walk_coverage", "coverage_contains", "coverage_exact"},
 }
 
 
@@ -25,7 +25,7 @@ def nontrivial_case(c):
     return len(set(ps)) < len(ps) or len(blocks) > len(levels) or gap
 
 
-def run_family(prop, tier, seed, replay, origin="writer", mc_cfg=None, level="model_checking", extra_rule=""):
+def run_family(prop, tier, seed, replay, origin="writer", mc_cfg=None, level="model_checking", extra_rule="", also_indep=False):
     run = C.Run(prop, tier, seed, level)
     d = C.outdir(prop)
     hb = C.build_harness()
@@ -43,6 +43,22 @@ def run_family(prop, tier, seed, replay, origin="writer", mc_cfg=None, level="mo
         mc = C.run_tlc("mc/MC_C01.tla", cfg, prop + "_mc", workers=8, replay_out=cases, timeout=2400)
         C.require_clean(mc, "MC_C01 (case enumeration + versatiles writer model theorem)")
         run.add_tlc(mc)
+        if prop == "C03":
+            # every MBTiles table on a 4x3 / 4x4 grid (extreme rows outside the sampled columns of the reader's query plan)
+            cases3 = os.path.join(d, "cases_grid.ndjson")
+            mc3 = C.run_tlc("mc/MC_C01.tla", "mc/MC_C03grid_%s.cfg" % tier, prop + "_mc_grid", workers=8, replay_out=cases3, timeout=2400)
+            C.require_clean(mc3, "MC_C01 with the MBTiles grid cfg (query-plan theorem)")
+            run.add_tlc(mc3)
+            with open(cases, "a") as f:
+                f.write(open(cases3).read())
+        if also_indep:
+            # the same clauses on files produced by the independent encoders (layout freedoms the writers never use)
+            cases2 = os.path.join(d, "cases_indep.ndjson")
+            mc2 = C.run_tlc("mc/MC_C01.tla", "mc/MC_C16_%s.cfg" % tier, prop + "_mc_indep", workers=8, replay_out=cases2, timeout=2400)
+            C.require_clean(mc2, "MC_C01 with the independent-encoder cfg")
+            run.add_tlc(mc2)
+            with open(cases, "a") as f:
+                f.write(open(cases2).read())
     case_list = C.read_ndjson(cases)
     t1 = os.path.join(d, "trace_replay.ndjson")
     s1 = C.run_harness(hb, ["replay", "CONTAINER", cases, t1, scratch, prop], timeout=6000)
